@@ -136,24 +136,34 @@ func eval1(c Case) evid.Verdict {
 			if err != nil {
 				return evid.Fail(sig, "GetEtype: %v", err)
 			}
-			_, c1, err1 := et.EncryptMessage(key, plain, c.Usage)
-			_, c2, err2 := et.EncryptMessage(key, plain, c.Usage)
-			if err1 != nil || err2 != nil {
-				return evid.Fail(sig, "library failed to encrypt: %v %v", err1, err2)
-			}
-			if bytes.Equal(c1, c2) {
-				return evid.Fail("confounder:"+fmt.Sprint(c.EType), "two encryptions of the same plaintext are identical: %x", c1)
-			}
-			_, f1, e1 := ref.Decrypt(c.EType, key, c.Usage, c1)
-			_, f2, e2 := ref.Decrypt(c.EType, key, c.Usage, c2)
-			if e1 != nil || e2 != nil {
-				return evid.Fail(sig, "reference cannot decrypt: %v %v", e1, e2)
-			}
-			if bytes.Equal(f1, f2) {
-				return evid.Fail("confounder:"+fmt.Sprint(c.EType), "two encryptions used the same confounder %x", f1)
-			}
-			if bytes.Equal(f1, make([]byte, len(f1))) {
-				return evid.Fail("confounder:"+fmt.Sprint(c.EType), "all-zero confounder")
+			// six encryptions in a row by one goroutine: all ciphertexts and all confounders differ, and no confounder is made of
+			// octets the caller supplied (the plaintext of this or an earlier call)
+			const M = 6
+			var cts, confs [][]byte
+			for i := 0; i < M; i++ {
+				_, ct, err := et.EncryptMessage(key, plain, c.Usage)
+				if err != nil {
+					return evid.Fail(sig, "library failed to encrypt: %v", err)
+				}
+				got, f, err := ref.Decrypt(c.EType, key, c.Usage, ct)
+				if err != nil || !bytes.Equal(got, want) {
+					return evid.Fail(sig, "reference cannot decrypt encryption %d of the same plaintext: %x %v", i+1, got, err)
+				}
+				for j := range cts {
+					if bytes.Equal(cts[j], ct) {
+						return evid.Fail("confounder:"+fmt.Sprint(c.EType), "encryptions %d and %d of the same plaintext (same key and usage, one after the other) are identical: %x", j+1, i+1, ct)
+					}
+					if bytes.Equal(confs[j], f) {
+						return evid.Fail("confounder:"+fmt.Sprint(c.EType), "encryptions %d and %d used the same confounder %x", j+1, i+1, f)
+					}
+				}
+				if bytes.Equal(f, make([]byte, len(f))) {
+					return evid.Fail("confounder:"+fmt.Sprint(c.EType), "all-zero confounder")
+				}
+				if len(plain) >= len(f) && bytes.Equal(f, plain[:len(f)]) {
+					return evid.Fail("confounder:"+fmt.Sprint(c.EType), "encryption %d uses the first octets of the plaintext as its confounder: %x", i+1, f)
+				}
+				cts, confs = append(cts, ct), append(confs, f)
 			}
 		case "fresh-concurrent":
 			// 8 goroutines encrypt the same plaintext under the same key and usage at the same time: every
@@ -382,9 +392,20 @@ func TestProp(t *testing.T) {
 			}
 		}
 	})
-	r.Rule("fresh-concurrent: for every etype, 8 goroutines x 400 encryptions of the same (key, usage, plaintext) at once: all 3200 ciphertexts distinct and decryptable by the reference")
+	// fresh, enumerated: plaintext lengths around the confounder and block sizes, six encryptions in a row each
+	r.Rule("fresh (enumerated + rapid): for every etype and plaintext length in {0, 1, 7, 8, 15, 16, 17, 31, 32, 33, 64, 100, 500, 600}: six encryptions in a row of the same (key, usage, plaintext): ciphertexts and confounders pairwise distinct, no confounder all-zero or equal to the first octets of the plaintext")
 	for _, et := range ref.ETypes {
-		for k := 0; k < r.N(1, 6); k++ {
+		for li, n := range []int{0, 1, 7, 8, 15, 16, 17, 31, 32, 33, 64, 100, 500, 600} {
+			lbl := fmt.Sprintf("c05/fresh/%d/%d", et, n)
+			c := Case{EType: et, Usage: kgen.Usages[(li+int(r.Seed()))%len(kgen.Usages)], Dir: "fresh",
+				Key: hex.EncodeToString(ref.RandomKey(et, kgen.DetBytes(r.Seed(), lbl+"/k", 32))), Plain: hex.EncodeToString(kgen.DetBytes(r.Seed(), lbl+"/p", n))}
+			count(r, c)
+			r.Violation("grid", c, Eval(c))
+		}
+	}
+	r.Rule("fresh-concurrent: for every etype, 8 goroutines x 400 encryptions of the same (key, usage, plaintext of 5, 21, 37, ... octets) at once: all 3200 ciphertexts distinct and decryptable by the reference")
+	for _, et := range ref.ETypes {
+		for k := 0; k < r.N(3, 8); k++ {
 			lbl := fmt.Sprintf("c05/conc/%d/%d", et, k)
 			c := Case{EType: et, Usage: kgen.Usages[(k*5+int(r.Seed()))%len(kgen.Usages)], Dir: "fresh-concurrent",
 				Key: hex.EncodeToString(ref.RandomKey(et, kgen.DetBytes(r.Seed(), lbl+"/k", 32))), Plain: hex.EncodeToString(kgen.DetBytes(r.Seed(), lbl+"/p", 5+k*16))}
